@@ -319,9 +319,18 @@ def run_world(plan, world=None):
           c.deliver_eof()
       elif what == 'silent':
         p = tr.peers[act[1]]
+        if not hasattr(p, '_orig'):
+          p._orig = (p.script, getattr(p, 'ping', None))
         p.script = (lambda *a: ['never'])
         if hasattr(p, 'ping'):
           p.ping = lambda k: ['ignore']
+      elif what == 'unsilent':
+        p = tr.peers[act[1]]
+        if hasattr(p, '_orig'):
+          p.script = p._orig[0]
+          if p._orig[1] is not None:
+            p.ping = p._orig[1]
+          del p._orig
       else:
         raise HarnessError(what)
     elif k == 'ss':
